@@ -16,4 +16,6 @@ def main(tier):
     from contracts import fresh_c
     fresh_c.run(rep, contracts=fresh_c.VECTORBASIS_CONTRACTS, class_fields=[])     # ownership (level P): Crystal.VectorBasis hands out a new object on every call
     M.annotate_C25(rep)
+    from contracts import vectlist_sx
+    vectlist_sx.run(rep)      # contract of Crystal.vectlist (orthonormal frame of a site's vector basis), symbolic, every unit vector, both branches
     return finish(rep, 'exploration', 'Postconditions of VectorStarSet.generate / generateouter / GFexpansion: Gram matrix = 1, each vector star is an equivariant field on one complete star, count = total invariant dimension of the stabilisers (character formula), outer = direct sums, GF expansion = projection of the directly assembled state-space matrix for seeded values.', './check C25 --tier ' + tier)
